@@ -73,6 +73,16 @@ theorem f26_unseparated_digest_ambiguous :
     digestUnsep 99999999999 "33".toList "3x".toList = digestUnsep 999999999993 "33".toList "x".toList ∧
     "3x".toList ≠ "x".toList := ⟨AuthCache.f26_unseparated_digest_ambiguous, by decide⟩
 
+/-- **a back-end error is not a rejection.**  When the back-end raises instead of answering, nothing is added to either
+    cache (every entry is still backed by a recorded answer, the record is unchanged), and `login` answers only if a cache
+    entry justified by an earlier back-end answer inside its lifetime says so — otherwise the error goes to the caller. -/
+theorem backend_error_is_not_cached (cfg : Cfg) (st : State) (log : List Call) (now : Nat) (l pw : Str) (h : Inv cfg st log) :
+    Inv cfg (loginFault cfg st now l pw).2 log ∧
+    (∀ r, (loginFault cfg st now l pw).1 = some r →
+      (r.user ≠ [] → ∃ c ∈ log, c.login = l ∧ c.pw = pw ∧ c.result = r.user ∧ age now c.time ≤ cfg.succExp) ∧
+      (r.user = [] → ∃ c ∈ log, c.login = l ∧ c.pw = pw ∧ c.result = [] ∧ age now c.time ≤ cfg.failExp)) :=
+  loginFault_step cfg st log now l pw h
+
 /-- One call: invariant preserved and answer justified (the step lemma behind the history theorems). -/
 theorem login_step_justified (cfg : Cfg) (st : State) (log : List Call) (now : Nat) (backend : Str → Str → Str)
     (l pw : Str) (h : Inv cfg st log) :
